@@ -1,6 +1,7 @@
 /- C13 — property theorems (only). Helper lemmas: Proofs/SamplesReduce.lean,
    Proofs/SamplesOccur.lean. -/
 import XsdataModel.Proofs.SamplesOccur
+import XsdataModel.Bind.Parse
 
 namespace Props.C13
 open Py Xs.Samples
@@ -85,5 +86,164 @@ example :
     let samples := [[mk "a", mk "b", mk "a", mk "b"], [mk "a", mk "c"]]
     (∀ s ∈ samples, ∀ a ∈ s, a.min ≤ 1 ∧ a.max = 1) ∧ (∀ s ∈ samples, s.length ≤ maxsize) := by
   decide
+
+
+/-! ### type inference -/
+
+/-- `match_type` answers with the string fallback or with the datatype of a table entry whose
+strict test accepts the value, and every entry in front of it rejects the value -/
+theorem match_type_first (e : SEnv) (tbl : List (Option PyT × Str)) (s : Str) :
+    (matchTypeIn e tbl s = Tables.dtString ∧ ∀ t q, (some t, q) ∈ tbl → testStrict e t s = false) ∨
+    ∃ pre t post, tbl = pre ++ (some t, matchTypeIn e tbl s) :: post ∧ testStrict e t s = true ∧
+      ∀ t' q', (some t', q') ∈ pre → testStrict e t' s = false := by
+  induction tbl with
+  | nil => left; simp [matchTypeIn]
+  | cons p rest ih =>
+    obtain ⟨t0, q0⟩ := p
+    cases t0 with
+    | none =>
+      have hm : matchTypeIn e ((none, q0) :: rest) s = matchTypeIn e rest s := by
+        simp [matchTypeIn, List.find?_cons]
+      rw [hm]
+      rcases ih with ⟨h1, h2⟩ | ⟨pre, t, post, h1, h2, h3⟩
+      · left
+        refine ⟨h1, ?_⟩
+        intro t q hmem
+        simp only [List.mem_cons, Prod.mk.injEq] at hmem
+        rcases hmem with ⟨h, _⟩ | hmem
+        · cases h
+        · exact h2 t q hmem
+      · right
+        refine ⟨(none, q0) :: pre, t, post, by rw [List.cons_append]; exact congrArg _ h1, h2, ?_⟩
+        intro t' q' hmem
+        simp only [List.mem_cons, Prod.mk.injEq] at hmem
+        rcases hmem with ⟨h, _⟩ | hmem
+        · cases h
+        · exact h3 t' q' hmem
+    | some t0 =>
+      cases ht : testStrict e t0 s with
+      | true =>
+        right
+        refine ⟨[], t0, rest, ?_, ht, by simp⟩
+        simp [matchTypeIn, List.find?_cons, ht]
+      | false =>
+        have hm : matchTypeIn e ((some t0, q0) :: rest) s = matchTypeIn e rest s := by
+          simp [matchTypeIn, List.find?_cons, ht]
+        rw [hm]
+        rcases ih with ⟨h1, h2⟩ | ⟨pre, t, post, h1, h2, h3⟩
+        · left
+          refine ⟨h1, ?_⟩
+          intro t q hmem
+          simp only [List.mem_cons, Prod.mk.injEq] at hmem
+          rcases hmem with ⟨h, _⟩ | hmem
+          · cases h; exact ht
+          · exact h2 t q hmem
+        · right
+          refine ⟨(some t0, q0) :: pre, t, post, by rw [List.cons_append]; exact congrArg _ h1, h2, ?_⟩
+          intro t' q' hmem
+          simp only [List.mem_cons, Prod.mk.injEq] at hmem
+          rcases hmem with ⟨h, _⟩ | hmem
+          · cases h; exact ht
+          · exact h3 t' q' hmem
+
+/-- in the live table every datatype belongs to one python type, and none is the string fallback -/
+theorem explicit_types_functional :
+    explicitTypes.all (fun p => p.2 ≠ Tables.dtString && explicitTypes.all (fun p' => p'.2 ≠ p.2 || p'.1 = p.1)) = true := by
+  decide
+
+/-- **infer_sound.** When `match_type` infers the datatype that the live table pairs with the
+python type `t`, the strict lexical test for `t` accepted the value. -/
+theorem infer_sound (e : SEnv) (s : Str) (t : PyT) (q : Str) (hq : (some t, q) ∈ explicitTypes)
+    (h : matchType e s = q) : testStrict e t s = true := by
+  have hf := explicit_types_functional
+  simp only [List.all_eq_true, Bool.and_eq_true, Bool.or_eq_true, decide_eq_true_eq, bne_iff_ne, ne_eq,
+    Bool.not_eq_true', decide_eq_false_iff_not] at hf
+  rcases match_type_first e explicitTypes s with ⟨h1, _⟩ | ⟨pre, t', post, h1, h2, _⟩
+  · have := (hf _ hq).1
+    simp only [matchType] at h
+    rw [h] at h1
+    exact absurd h1 this
+  · simp only [matchType] at h
+    rw [h] at h1
+    have hmem : (some t', q) ∈ explicitTypes := by rw [h1]; simp
+    have := (hf _ hq).2 _ hmem
+    simp at this
+    cases this; exact h2
+
+open Xs.Bind in
+/-- a value inferred as `int` is read by the binding layer's int converter and written back as it
+was spelled (up to surrounding white space) -/
+theorem infer_int_roundtrip (e : SEnv) (be : BEnv) (hpy : be.py = e.py) (s : Str) (q : Str) (nsmap : NsMap)
+    (hq : (some PyT.int, q) ∈ explicitTypes) (h : matchType e s = q) :
+    ∃ v, deOne be s (.prim .int) nsmap = some v ∧ serPrim v = e.py.strip s := by
+  have ht := infer_sound e s .int q hq h
+  simp only [testStrict] at ht
+  cases hi : e.py.pyInt s with
+  | none => simp [hi] at ht
+  | some i =>
+    simp only [hi, decide_eq_true_eq] at ht
+    exact ⟨.int i, by simp [deOne, hpy, hi], by simp [serPrim, ht]⟩
+
+open Xs.Bind in
+/-- the same for `bool` -/
+theorem infer_bool_roundtrip (e : SEnv) (be : BEnv) (hpy : be.py = e.py) (s : Str) (q : Str) (nsmap : NsMap)
+    (hq : (some PyT.bool, q) ∈ explicitTypes) (h : matchType e s = q) :
+    ∃ v, deOne be s (.prim .bool) nsmap = some v ∧ serPrim v = e.py.strip s := by
+  have ht := infer_sound e s .bool q hq h
+  have hv : e.py.strip s = "true".toList ∨ e.py.strip s = "false".toList := by
+    simp only [testStrict, deBool] at ht
+    split at ht
+    · rename_i b _
+      simp only [decide_eq_true_eq] at ht
+      cases b
+      · right; simpa [serBool] using ht
+      · left; simpa [serBool] using ht
+    · cases ht
+  rcases hv with hv | hv
+  · exact ⟨.bool true, by simp [deOne, hpy, hv], by simp [serPrim, hv]⟩
+  · refine ⟨.bool false, ?_, by simp [serPrim, hv]⟩
+    simp only [deOne, hpy, hv]
+    decide
+
+example : (some PyT.int, Tables.explicitTypes.head!.2) ∈ explicitTypes := by decide
+
+/-! ### the generated union reads leniently (finding C13-union-member-order) -/
+
+open Xs.Bind in
+/-- full strength: whichever member of the union `int | str` (members tried in the converter's
+fixed order) reads a sample value, the value is written back as it was spelled -/
+def union_parse_faithful : Prop :=
+  ∀ (be : BEnv) (s : Str) (v : PVal), deserialize be s [.prim .int, .prim .str] [] = some v → serPrim v = s
+
+open Xs.Bind in
+/-- it is false: `007` was inferred as a string (its strict int test fails) but `int` reads it -/
+theorem union_parse_unfaithful : ¬ union_parse_faithful := by
+  intro h
+  have := h ⟨Env.ascii, fun _ => true, fun _ => true⟩ "007".toList (.int 7) (by decide)
+  revert this
+  decide
+
+/-- the witness really is inferred as a string next to an int sample -/
+theorem union_witness_types :
+    let e : SEnv := ⟨Env.ascii, fun _ => false, fun _ => false⟩
+    testStrict e .int "007".toList = false ∧ testStrict e .int "12".toList = true := by
+  decide
+
+open Xs.Bind in
+/-- the provable part: a value that the int converter rejects, or reads and writes back
+unchanged, survives the union -/
+theorem union_parse_faithful_partial (be : BEnv) (s : Str) (v : PVal)
+    (hstrict : ∀ i, be.py.pyInt s = some i → intStr i = s)
+    (h : deserialize be s [.prim .int, .prim .str] [] = some v) : serPrim v = s := by
+  simp only [deserialize, List.findSome?_cons, deOne] at h
+  cases hi : be.py.pyInt s with
+  | none => simp [hi] at h; subst h; simp [serPrim]
+  | some i => simp [hi] at h; subst h; simp [serPrim, hstrict i hi]
+
+example : ∀ i, Env.ascii.pyInt "abc".toList = some i → intStr i = "abc".toList := by decide
+example : ∀ i, Env.ascii.pyInt "12".toList = some i → intStr i = "12".toList := by
+  intro i h
+  have : Env.ascii.pyInt "12".toList = some 12 := by decide
+  rw [this] at h; cases h; decide
 
 end Props.C13
